@@ -63,7 +63,7 @@ def engines():
                 for n in ["fuzz_main", "props_core", "props_meta"]],
         "link": ["-fsanitize=fuzzer,address,undefined"] + ["-lrapidcheck"],
     }
-    e2_pols = ["dbg", "rel", "dbg_ind", "rel_ind", "rel_map"]
+    e2_pols = ["dbg", "rel", "dbg_ind", "rel_ind", "rel_map", "dbg_inh"]
     e2_deps = ["e2/*.hpp", "e1/spec.hpp", "common/*.hpp"]
     e["e2"] = {
         "tus": [{"src": "e2/pol.cpp", "name": "e2_pol_" + p_,
@@ -340,7 +340,7 @@ prop("C09", engine="e2", rule=(
     technique="property-based testing (rapidcheck) on real C++ types with "
               "a reference-model oracle and route metamorphism",
     quick=dict(cases=1500, size=60), thorough=dict(cases=40000, size=100))
-prop("C10", engine="e1", rule=(
+prop("C10", engine="e1", program="c10", rule=(
     "one abstract registry instantiated under 3..4 RTTI flavours (identity "
     "custom ids with checked hash / map / no hash, many-to-one projection "
     "with 1..3 alias ids per class spread over records, base lists, method "
@@ -348,7 +348,15 @@ prop("C10", engine="e1", rule=(
     "by update), 1..3 updates each; model oracle per flavour plus pairwise "
     "equality of every tuple's dispatch and every next; under projection "
     "every registered alias id is used as the dynamic id; non-trivial = "
-    "arity >= 2 or a class with >= 2 alias ids or >= 2 updates"),
+    "arity >= 2 or a class with >= 2 alias ids or >= 2 updates. Second "
+    "generator (programs): a random DAG of real C++ classes, one method of "
+    "arity 1..2 whose virtual parameters are drawn from T&, const T&, T*, "
+    "const T*, shared_ptr, const shared_ptr&, virtual_ptr, emitted under "
+    "three policies in one program - std_rtti, pointer ids (minimal_rtti "
+    "statics, which tell const T from T, dynamic id in a field), deferred "
+    "small-integer ids without type hash - compiled with ASan+UBSan; every "
+    "tuple must give the model's result under each flavour, before and "
+    "after a second update"),
     quick=dict(cases=1500, size=60), thorough=dict(cases=40000, size=100))
 prop("C11", engine="e2", program="c11", rule=(
     "two generators. (1) generated programs: a case is a combination of "
@@ -429,8 +437,16 @@ prop("C14", engine="e1", rule=(
     "dispatch_data address/size/content, hash parameters and control "
     "table, v-table lookups, live virtual_ptrs, which handler a provoked "
     "error reaches) must be unchanged; non-trivial = an update of B between "
-    "two observations of A"),
-    quick=dict(cases=1200, size=60), thorough=dict(cases=30000, size=100))
+    "two observations of A. Plus the catalogs engine (see C18): real "
+    "class_declaration (pack and type-list forms) / method / definition "
+    "objects of one policy constructed and destroyed at random while the "
+    "catalogs of a second policy and of the default policy must not change"),
+    quick=dict(cases=1200, size=60,
+               also=[dict(engine="e5", variants=["catalogs"], workers=2,
+                          cases=3000)]),
+    thorough=dict(cases=30000, size=100,
+                  also=[dict(engine="e5", variants=["catalogs"], workers=2,
+                             cases=100000)]))
 prop("C15", engine="e1", rule=(
     "random registry with one class left out, used as a listed base, a "
     "method parameter, a definition parameter (update must report "
@@ -609,7 +625,7 @@ def replay_file(exe, path, fork=True):
 
 PROGRAM_ENGINES = {"c11": "proggen.c11", "c20": "proggen.c20",
                    "c13": "proggen.c13", "c07": "proggen.c07",
-                   "c03": "proggen.c03"}
+                   "c03": "proggen.c03", "c10": "proggen.c10"}
 
 
 def program_module(name):
@@ -879,6 +895,12 @@ def check(pid, tier, seed):
             violations.append((path, fl["message"]))
             continue
         if fl.get("engine") in PROGRAM_ENGINES:
+            # one witness per failure class: confirming and shrinking a
+            # program case costs several compilations
+            pre = (fl.get("engine"), fl["message"].split(":")[0])
+            if pre in seen_msgs:
+                continue
+            seen_msgs.add(pre)
             fl = shrink_program_failure(fl, scratch)
             if fl is None:
                 unconfirmed += 1
